@@ -214,6 +214,10 @@ REPAIRS = [
 ]
 
 
+# correct feature additions (sub-agents, DESIGN §8): property-preserving extensions that must leave every check silent
+FEATURES = ["F2", "F4", "F5", "F7", "F8"]
+
+
 def _repair_control(prop, name, patch):
     tmp = tempfile.mkdtemp(prefix="rtcpctl")
     try:
@@ -272,6 +276,10 @@ def run(ctx, res, prop, equiv_names=None, max_workers=8):
         for name, patch, props in REPAIRS:
             if prop in props:
                 jobs.append(("repair", ex.submit(_repair_control, prop, name, os.path.join(VERIF, patch))))
+        for k in FEATURES:
+            fp = os.path.join(VERIF, "seeded", "feature", k + ".diff")
+            if os.path.exists(fp) and equiv_names is None:
+                jobs.append(("equiv", ex.submit(_patch_control, prop, f"feature/{k}", fp)))
         files = anchor_files(prop)
         for name, file, old, new in EQUIV:
             # only rewrites of code the property is anchored in (src/utils.rs is shared by every parser and writer)
